@@ -35,6 +35,7 @@ def shape_truthiness(prog: Program, module_filter=None):
         for fn in ast.walk(m.tree):
             if not isinstance(fn, (ast.FunctionDef, ast.Lambda)):
                 continue
+            shape_names = _shape_valued_names(fn)
             for node in ast.walk(fn):
                 tests = []
                 if isinstance(node, (ast.If, ast.While, ast.IfExp, ast.Assert)):
@@ -46,8 +47,35 @@ def shape_truthiness(prog: Program, module_filter=None):
                 for t in tests:
                     for e in truthiness_operands(t):
                         src = ast.unparse(e)
-                        if SHAPE_RE.search(src):
+                        if SHAPE_RE.search(src) or (isinstance(e, ast.Name) and e.id in shape_names):
                             yield m, getattr(fn, "name", "<lambda>"), e, src
+
+
+PLURAL_RE = re.compile(r"(^|\.)(\w*shapes)$")
+
+
+def _shape_valued_names(fn) -> set:
+    """Names that denote one shape because they range over a sequence of shapes: loop / comprehension targets over
+    `*shapes`, and the parameters of a function handed to reduce / map / filter together with `*shapes`."""
+    out = set()
+    nested = {n.name: n for n in ast.walk(fn) if isinstance(n, ast.FunctionDef) and n is not fn}
+    for node in ast.walk(fn):
+        if isinstance(node, (ast.For, ast.comprehension)):
+            it, tg = node.iter, node.target
+            if isinstance(it, ast.Call) and ast.unparse(it.func) == "enumerate" and it.args and \
+                    isinstance(tg, ast.Tuple) and len(tg.elts) == 2:
+                it, tg = it.args[0], tg.elts[1]
+            if PLURAL_RE.search(ast.unparse(it)) and isinstance(tg, ast.Name):
+                out.add(tg.id)
+        elif isinstance(node, ast.Call) and ast.unparse(node.func).split(".")[-1] in ("reduce", "map", "filter") and node.args:
+            rest = node.args[1:] + [k.value for k in node.keywords]
+            if any(PLURAL_RE.search(ast.unparse(a)) for a in rest):
+                f = node.args[0]
+                if isinstance(f, ast.Name) and f.id in nested:
+                    f = nested[f.id]
+                if isinstance(f, (ast.Lambda, ast.FunctionDef)):
+                    out.update(p.arg for p in f.args.posonlyargs + f.args.args)
+    return out
 
 
 def count_tests(prog: Program, module_filter=None) -> int:
@@ -131,13 +159,15 @@ def unstable_patterns(t):
     return out
 
 
-def rule_stable_bijections(prog, rep, R):
+def rule_stable_bijections(prog, rep, R, only=None, minimum=50):
     from ..terms import show
     from .bij import bijection_classes, is_stub, method_site, method_term
     rep.rule(R, "no exp/log composition that is exact over the reals but cancels or overflows in floating point "
                 "(log(exp(a) - 1), log1p(-exp(a)), log(1 + exp(a))) in a bijection method: the reparameterised "
-                "constructor arguments and round trips must survive float32 at small / large magnitudes", minimum=50)
+                "constructor arguments and round trips must survive float32 at small / large magnitudes", minimum=minimum)
     for c in bijection_classes(prog):
+        if only is not None and c.qualname not in only:
+            continue
         for m in ("transform", "transform_and_log_det", "inverse", "inverse_and_log_det"):
             t = method_term(prog, c, m)
             if is_stub(t):
